@@ -7,10 +7,12 @@ names the oracle; `corr_eq` is constantly true; a `panic` / `timeout` / `crash` 
 always a violation.
 
 Case line (harness/src/bin/impl_sig.rs):
-  <edns> <their|-> <catalog> <keyname,alg,keyhex> <id> <rd> <qnamewire> <qtype> <qclass>
+  <edns> <their|-> <catalog> <keyname,alg,keyhex> <id> <rd> <qnamewire> <qtype> <qclass> <dt>
+(dt: seconds added to the clock for the request's time signed; outside +-300 the server answers BADTIME, signed, with
+6 octets of other data)
 The responses carry the server's clock (TSIG time signed, MAC), so an implementation line cannot be recomputed:
 the oracle runner is kept as a co-process and asked about exactly the line the framework obtained."""
-import os, subprocess, atexit
+import os, random, subprocess, atexit
 import qv, qgen, srvgen
 from dnsgen import enc_name, hx
 
@@ -88,14 +90,14 @@ def pick_key_name(rng, apex, qname, targets):
     """3..255 octets: unrelated (short / up to 255 octets), sharing the apex, sharing labels with a name occurring in the
     zone's RDATA (the name itself, a child of it, a sibling), sharing labels with the QNAME"""
     r = rng.random()
-    if r < 0.12:
+    if r < 0.10:
         k = rng.choice([[b"k"], [b"key", b"tsig"], [b"K", b"e", b"y"], [b"x" * 63]])
-    elif r < 0.27:
+    elif r < 0.22:
         k = labels_of_len(rng, rng.choice([200, 253, 254, 255, 255, rng.randint(3, 255)]), b"kK")
-    elif r < 0.40:
+    elif r < 0.32:
         k = rng.choice([[b"k"] + apex, [b"key", b"tsig"] + apex,
                         pad_to(rng, apex, rng.choice([255, 254, 128, rng.randint(10, 255)]), b"k")])
-    elif r < 0.82 and targets:
+    elif r < 0.86 and targets:
         # biased towards the names written last (the most recent name in RDATA when a response is cut short)
         j = len(targets) - 1 - min(len(targets) - 1, int(rng.expovariate(0.7)))
         t = targets[j] if rng.random() < 0.75 else rng.choice(targets)
@@ -130,9 +132,17 @@ def key_field(rng, key_labels, alg):
     return f"{hx(enc_name(key_labels))},{alg},{hx(secret)}"
 
 
-def case_line(rng, server, their, catalog, key_labels, alg, qname, qtype, qclass):
+STALE = [-10000, -301, 301, 10000, -100000000]      # seconds off the clock: outside the fudge window of 300 -> BADTIME
+FRESH = [0, 0, 0, 0, -299, 299]
+
+
+def case_line(rng, server, their, catalog, key_labels, alg, qname, qtype, qclass, stale=None):
+    """stale: None = 6% of the requests carry a time outside the fudge window"""
+    if stale is None:
+        stale = rng.random() < 0.06
+    dt = rng.choice(STALE) if stale else rng.choice(FRESH)
     return (f"{server} {their if their is not None else '-'} {catalog} {key_field(rng, key_labels, alg)} "
-            f"{rng.randrange(65536)} {rng.choice([0, 1])} {hx(enc_name(qname))} {qtype} {qclass}")
+            f"{rng.randrange(65536)} {rng.choice([0, 1])} {hx(enc_name(qname))} {qtype} {qclass} {dt}")
 
 
 # ---------------------------------------------------------------- generator
@@ -155,6 +165,9 @@ def gen_tsig_edge(rng):
     else:
         key = None
     z = c04.Z(apex)
+    # a third of them with a time outside the fudge window: SIGNED BADTIME response, 6 octets of other data more
+    stale = rng.random() < 0.35
+    extra = 6 if stale else 0
     # QNAME length such that 12 + question + OPT + TSIG = limit + delta
     delta = rng.randint(-12, 12) if rng.random() < 0.8 else rng.randint(-60, 60)
     if key is None:
@@ -163,7 +176,7 @@ def gen_tsig_edge(rng):
         qname = pad_to(rng, apex, ql, b"q")
         key = clip_name([b"k"] + qname[1:]) if rng.random() < 0.5 else list(qname)
     else:
-        want = limit + delta - 12 - 4 - (11 if opt else 0) - tsig_len(key, alg)
+        want = limit + delta - 12 - 4 - (11 if opt else 0) - tsig_len(key, alg) - extra
         ql = max(wire_len(apex) + 2, min(255, want))
         qname = pad_to(rng, apex, ql, b"q")
     what = rng.random()
@@ -180,30 +193,70 @@ def gen_tsig_edge(rng):
         z.add(cut, 2, 600, enc_name(ns + apex))
         z.add(ns, 1, 60, c04.a_rd(3))
     qtype = rng.choice([1, 1, 16, 255, 28])
-    return case_line(rng, server, their, z.render(), key, alg, qgen.flip(rng, qname, 0.05), qtype, 1)
+    return case_line(rng, server, their, z.render(), key, alg, qgen.flip(rng, qname, 0.05), qtype, 1, stale)
 
 
-def gen(rng, tier, n=None, m=None, e=None):
+def gen_sweep(rng, d):
+    """one TXT RRset tuned so that the complete SIGNED response is EXACTLY limit + d octets long; the key name shares no
+    label with the QNAME or the zone (nothing of the TSIG RR is compressible: reserved size = written size)"""
+    import c04
+    r = rng.random()
+    if r < 0.4:
+        server, their, limit = rng.choice([512, 1232, 4096]), None, 512
+    else:
+        limit = rng.choice([512, 513, 700, 1232, rng.randint(512, 2000)])
+        server = rng.choice([limit, limit, 4096, rng.randint(limit, 65535)])
+        their = limit if server > limit or rng.random() < 0.5 else rng.choice([4096, 65535, rng.randint(limit, 65535)])
+    opt = their is not None
+    alg = rng.choice(["1", "256"])
+    apex = rng.choice([[b"a"], [b"z" * 30, b"a"], []])
+    key = labels_of_len(rng, rng.choice([3, 3, 9, 40, 120, rng.randint(3, 200)]), b"kK")
+    qname = [b"big"] + apex
+    base = 12 + wire_len(qname) + 4 + (11 if opt else 0) + tsig_len(key, alg)
+    payload = limit + d - base
+    z = c04.Z(apex)
+    i = 0
+    while payload >= 14:
+        chunk = payload if payload <= 268 else min(268, payload - 14)
+        z.add([b"big"], 16, 300, [chunk - 13] + [97 + (i % 26)] * (chunk - 13))
+        payload -= chunk
+        i += 1
+    return case_line(rng, server, their, z.render(), key, alg, qgen.flip(rng, qname, 0.05), 16, 1, False)
+
+
+def gen(rng, tier, n=None, m=None, e=None, x=None):
     import c04
     quick = tier == "quick"
     n = n if n is not None else (900 if quick else 30000)
     m = m if m is not None else (8 if quick else 200)
-    e = e if e is not None else (150 if quick else 5000)
-    # (1) the size-tuned scenarios of C04, the complete SIGNED response within +-40 octets of the limit in effect
+    e = e if e is not None else (200 if quick else 5000)
+    x = x if x is not None else (20 if quick else 400)
+    # (0) the exact sweep: complete signed response of limit-4 .. limit+4 octets, every offset x times
+    for _ in range(x):
+        for d in range(-4, 5):
+            yield gen_sweep(rng, d)
+    # (1) the size-tuned scenarios of C04, re-tuned so that the complete SIGNED response (TSIG owner uncompressed, as the
+    # Writer reserves it) is within +-40 octets of the limit in effect.  The key name is chosen from the zone's names and
+    # the zone's sizes depend on the key's length: the scenario is replayed from the same generator state until the two
+    # agree (the structural choices - scenario kind, which RDATA name the key shares, how - are the same in every pass).
     for _ in range(n):
         server, their, limit = c04.pick_limits(rng)
         opt = their is not None
         alg = rng.choice(["1", "256"])
-        # the key name is chosen after the zone (it may share labels with the zone's names); the tuning needs its
-        # length first: draw the length class now, build the zone for it, then choose a name and re-tune by padding
-        want_key_len = rng.choice([3, 10, 30, 80, 255, rng.randint(3, 255)])
-        approx_tsig = want_key_len + 10 + len(ALGS[alg][0]) + 2 + 16 + ALGS[alg][1]
-        for z, qn, qt in c04.scenarios(rng, max(120, limit - approx_tsig), opt):
-            targets = rdata_names(z.recs)
-            key = pick_key_name(rng, z.apex, qn, targets)
-            if rng.random() < 0.5 and wire_len(key) < want_key_len:
-                key = clip_name(pad_to(rng, key, want_key_len, b"k"))
-            yield case_line(rng, server, their, z.render(), key, alg, qgen.flip(rng, qn, 0.05), qt, z.cls)
+        kseed = rng.getrandbits(64)
+        approx = tsig_len([b"k"] * rng.choice([1, 5, 15]), alg)
+        st = rng.getstate()
+        for _pass in range(4):
+            r2 = random.Random()
+            r2.setstate(st)
+            z, qn, qt = next(iter(c04.scenarios(r2, max(100, limit - approx), opt)))
+            key = pick_key_name(random.Random(kseed), z.apex, qn, rdata_names(z.recs))
+            actual = tsig_len(key, alg)
+            if actual == approx:
+                break
+            approx = actual
+        rng.setstate(r2.getstate())
+        yield case_line(rng, server, their, z.render(), key, alg, qgen.flip(rng, qn, 0.05), qt, z.cls)
     # (2) question + TSIG RR around the limit
     for _ in range(e):
         yield gen_tsig_edge(rng)
@@ -357,7 +410,8 @@ def finding_c04_2(kf, case, impl, model, oracle):
     set_tsig reserved the uncompressed size: over UDP the response is cut short as if it did not fit.  Matches exactly:
     verdict `TCP-response-fits-but-UDP-response-differs`; the TCP response ends in a TSIG RR whose owner is compressed,
     saving s > 0 octets, and len(TCP) + s > limit in effect; and the UDP response is what the pair relation demands of a
-    response whose complete form does NOT fit (same relation, evaluated under the limit len(TCP) - 1)."""
+    response whose complete form does NOT fit (same relation and size limit, the complete response counted as fitting only
+    up to len(TCP) - 1 octets)."""
     if kf.get("id") != "C04-2" or not well_formed_line(impl):
         return False
     if pair_verdict(case, impl) != "bad:TCP-response-fits-but-UDP-response-differs":
@@ -377,7 +431,8 @@ def finding_c04_2(kf, case, impl, model, oracle):
     limit = limit_of(case) if opt else 512
     if not (saved > 0 and len(tb) + saved > limit):
         return False
-    return AT.ask(f"{len(tb) - 1} {ru} {rt}") == "ok"
+    f = case.split()
+    return AT.ask(f"{f[0]} {f[1]} {len(tb) - 1} {ru} {rt}") == "ok"
 
 
 def findings_c04(kf, case, impl, model, oracle):
@@ -427,7 +482,20 @@ RULE = ("each request is a CORRECTLY SIGNED QUERY built with the crate's own Wri
         "non-trivial = TC, optional records omitted, or complete response within 40 octets of the limit")
 
 
-def suite(oracle_ok, finding_matches=None):
+def classify_c04(case, impl, model, oracle):
+    """outcome class + the oracle's verdict when it is not `ok` (so the evidence histogram shows the verdicts)"""
+    k = classify(case, impl, model, oracle)
+    v = pair_verdict(case, impl) if well_formed_line(impl) else "ok"
+    return k if v == "ok" else f"{k} !{v}"
+
+
+def classify_c02(case, impl, model, oracle):
+    k = classify(case, impl, model, oracle)
+    v = wf_verdicts(impl) if well_formed_line(impl) else []
+    return k if all(x == "ok" for x in v) else f"{k} !wf_response={','.join(v)}"
+
+
+def suite(oracle_ok, finding_matches=None, classify=classify):
     s = {"name": "signed", "impl_bin": "impl_sig", "extract": "Extract/ExSig.v", "driver": "run_sig.ml",
          "runner_name": RUNNER_NAME, "gen": gen, "nontrivial": nontrivial, "classify": classify,
          "oracle_ok": oracle_ok, "corr_eq": corr_eq, "exhaustive": {"quick": False, "thorough": False},
